@@ -902,8 +902,8 @@ func (t *State) verifyDAGTxs(blockHeight int64, txs []*pb.Transaction, isRootTx 
 					return errors.New("dotx failed to ImmediateVerifyAutoTx error")
 				}
 			}
-			if !tx.Autogen && !tx.Coinbase {
-				// 校验用户交易
+			if !t.verifyAutogenTxValid(tx) && !tx.Coinbase {
+				// 校验用户交易, 没有读写集的autogen交易不是合法的定时交易, 按用户交易校验(会被拒绝)
 				if ok, err := t.ImmediateVerifyTx(tx, isRootTx); !ok {
 					t.log.Warn("dotx failed to ImmediateVerifyTx", "txid", fmt.Sprintf("%x", tx.Txid), "err", err)
 					ok, isRelyOnMarkedTx, err := t.verifyMarked(tx)
